@@ -17,6 +17,9 @@ func TestC14Enum(t *testing.T) {
 	for _, cfg := range enumCfgs() {
 		cfg.Mode = "server"
 		alpha := srvAlphabet(&cfg, false)
+		if cfg.Transport == "inproc" {
+			alpha = inprocAlphabet(alpha)
+		}
 		enumScripts(cfg, alpha, Scale(4, 5), implNegotiates(&cfg), func(c0 *SrvCase) {
 			for _, end := range []string{"eof", "wait", "close-now", "cut"} {
 				idx++
